@@ -24,6 +24,8 @@ CONSTANTS Cfgs,        \* set of configurations explored (records, see MCFlw*.tl
           MaxTrig,     \* bound on forced rotations
           MaxAdv,      \* bound on clock advances
           MaxExt,      \* bound on removals of files by the environment (between runs)
+          MaxSw,       \* bound on switches: external rename/remove of the current file + reopen, reset
+          ResetCfgs,   \* configurations a Reset may switch to (new family in another directory)
           Fixes,       \* names of deviations assumed repaired
           GenHist      \* TRUE: keep the action history (scenario generation)
 
@@ -40,9 +42,13 @@ VARIABLES dir,      \* Name -> inode id        (the log directory)
                     \* reopened without append; cleanup limit)
           forced,   \* stream positions with a legitimate non-criterion file boundary (C08)
           extgone, exts, \* record ids removed by the environment; number of such removals
+          moved,    \* inodes of current files renamed away by the environment, in rename order (C18)
+          olddirs,  \* directories of the families left behind by Reset, in order (C18)
+          sws,      \* number of switches so far
+          needReopen, \* the current file was renamed/removed: the application calls reopen next
           hist      \* action history (only when GenHist)
 
-vars == <<dir, files, w, clk, cfg, logged, wt, runs, trigs, advs, gone, okgone, forced, extgone, exts, hist>>
+vars == <<dir, files, w, clk, cfg, logged, wt, runs, trigs, advs, gone, okgone, forced, extgone, exts, moved, olddirs, sws, needReopen, hist>>
 
 (***************************************************************************)
 (* Names                                                                   *)
@@ -259,17 +265,18 @@ H(e) == IF GenHist THEN Append(hist, e) ELSE hist
 
 Init == /\ dir = <<>> /\ files = <<>> /\ w = NoWriter /\ clk = T0
         /\ cfg \in Cfgs /\ logged = <<>> /\ wt = <<>> /\ runs = 0 /\ trigs = 0 /\ advs = 0
-        /\ gone = {} /\ okgone = {} /\ forced = {} /\ extgone = {} /\ exts = 0 /\ hist = <<>>
+        /\ gone = {} /\ okgone = {} /\ forced = {} /\ extgone = {} /\ exts = 0 /\ moved = <<>> /\ olddirs = <<>> /\ sws = 0 /\ needReopen = FALSE
+        /\ hist = <<>>
 
 Start(ap) == /\ w.st = "none" /\ runs < MaxRuns
              /\ cfg' = [cfg EXCEPT !.append = ap] /\ runs' = runs + 1
              /\ w' = [NoWriter EXCEPT !.st = "init"]
              /\ forced' = IF ~ap THEN forced \cup {Len(logged)} ELSE forced
              /\ hist' = H([op |-> "Start", append |-> ap])
-             /\ UNCHANGED <<dir, files, clk, logged, wt, trigs, advs, gone, okgone, extgone, exts>>
+             /\ UNCHANGED <<dir, files, clk, logged, wt, trigs, advs, gone, okgone, extgone, exts, moved, olddirs, sws, needReopen>>
 
 Write(len) ==
-    /\ w.st \in {"init", "act"} /\ Len(logged) < MaxRecs
+    /\ w.st \in {"init", "act"} /\ Len(logged) < MaxRecs /\ ~needReopen
     /\ LET id  == Len(logged) + 1
            lg  == Append(logged, len)
            i0  == IF w.st = "init" THEN Initialize(cfg, dir, files, clk)
@@ -288,16 +295,16 @@ Write(len) ==
           /\ gone' = gone \cup (before \ after)
           /\ okgone' = okgone \cup i0.legit \cup cleaned
     /\ hist' = H([op |-> "Log", len |-> len])
-    /\ UNCHANGED <<clk, cfg, runs, trigs, advs, forced, extgone, exts>>
+    /\ UNCHANGED <<clk, cfg, runs, trigs, advs, forced, extgone, exts, moved, olddirs, sws, needReopen>>
 
 \* trigger_rotation before the first write or without rotation does nothing (state.rs:460)
 TriggerNoop == /\ w.st = "init" \/ (w.st = "act" /\ ~cfg.rot)
                /\ trigs < MaxTrig /\ trigs' = trigs + 1
                /\ forced' = forced \cup {Len(logged)}
                /\ hist' = H([op |-> "Trigger"])
-               /\ UNCHANGED <<dir, files, w, clk, cfg, logged, wt, runs, advs, gone, okgone, extgone, exts>>
+               /\ UNCHANGED <<dir, files, w, clk, cfg, logged, wt, runs, advs, gone, okgone, extgone, exts, moved, olddirs, sws, needReopen>>
 
-Trigger == /\ w.st = "act" /\ cfg.rot /\ trigs < MaxTrig
+Trigger == /\ w.st = "act" /\ cfg.rot /\ trigs < MaxTrig /\ ~needReopen
            /\ LET r0 == Rotate(cfg, dir, files, w, clk)
                   before == AllIdsIn(dir, FlushInto(files, w))
                   after  == AllIdsIn(r0.d, r0.f)
@@ -307,21 +314,21 @@ Trigger == /\ w.st = "act" /\ cfg.rot /\ trigs < MaxTrig
            /\ trigs' = trigs + 1
            /\ forced' = forced \cup {Len(logged)}
            /\ hist' = H([op |-> "Trigger"])
-           /\ UNCHANGED <<clk, cfg, logged, wt, runs, advs, extgone, exts>>
+           /\ UNCHANGED <<clk, cfg, logged, wt, runs, advs, extgone, exts, moved, olddirs, sws, needReopen>>
 
-Flush == /\ w.st = "act" /\ w.buf # <<>>
+Flush == /\ w.st = "act" /\ w.buf # <<>> /\ ~needReopen
          /\ files' = FlushInto(files, w) /\ w' = [w EXCEPT !.buf = <<>>]
          /\ hist' = H([op |-> "Flush"])
-         /\ UNCHANGED <<dir, clk, cfg, logged, wt, runs, trigs, advs, gone, okgone, forced, extgone, exts>>
+         /\ UNCHANGED <<dir, clk, cfg, logged, wt, runs, trigs, advs, gone, okgone, forced, extgone, exts, moved, olddirs, sws, needReopen>>
 
-Stop == /\ w.st \in {"init", "act"}
+Stop == /\ w.st \in {"init", "act"} /\ ~needReopen
         /\ files' = FlushInto(files, w) /\ w' = NoWriter
         /\ hist' = H([op |-> "Stop"])
-        /\ UNCHANGED <<dir, clk, cfg, logged, wt, runs, trigs, advs, gone, okgone, forced, extgone, exts>>
+        /\ UNCHANGED <<dir, clk, cfg, logged, wt, runs, trigs, advs, gone, okgone, forced, extgone, exts, moved, olddirs, sws, needReopen>>
 
 Advance(dt) == /\ advs < MaxAdv /\ clk' = clk + dt /\ advs' = advs + 1
                /\ hist' = H([op |-> "Adv", dt |-> dt])
-               /\ UNCHANGED <<dir, files, w, cfg, logged, wt, runs, trigs, gone, okgone, forced, extgone, exts>>
+               /\ UNCHANGED <<dir, files, w, cfg, logged, wt, runs, trigs, gone, okgone, forced, extgone, exts, moved, olddirs, sws, needReopen>>
 
 \* the environment removes a family file while no logger is running (C06: directories left in any
 \* state a previous run can produce - only compressed files, gaps in numbering, missing current file)
@@ -329,13 +336,56 @@ ExtRemove(n) == /\ w.st = "none" /\ runs >= 1 /\ exts < MaxExt /\ n \in DOMAIN d
                 /\ dir' = Unlink(dir, n) /\ exts' = exts + 1
                 /\ extgone' = extgone \cup IdsOf(dir, files, n)
                 /\ hist' = H([op |-> "ExtRemove", k |-> n.k, i |-> n.i, r |-> n.r, z |-> n.z])
-                /\ UNCHANGED <<files, w, clk, cfg, logged, wt, runs, trigs, advs, gone, okgone, forced>>
+                /\ UNCHANGED <<files, w, clk, cfg, logged, wt, runs, trigs, advs, gone, okgone, forced, moved, olddirs, sws, needReopen>>
+
+\* ---- C18: the environment renames or removes the file currently written to (logrotate style),
+\* the application then calls reopen_output(); reset_flw() switches to another family.
+\* Until the reopen, the writer keeps writing into the old inode (file_log_writer.rs:reopen_outputfile doc).
+ExtRenameCur == /\ w.st = "act" /\ sws < MaxSw /\ ~needReopen /\ w.path \in DOMAIN dir /\ dir[w.path] = w.ino
+                /\ dir' = Unlink(dir, w.path) /\ moved' = Append(moved, w.ino)
+                /\ sws' = sws + 1 /\ needReopen' = TRUE
+                /\ hist' = H([op |-> "ExtRename", which |-> "cur"])
+                /\ UNCHANGED <<files, w, clk, cfg, logged, wt, runs, trigs, advs, gone, okgone, forced, extgone, exts, olddirs>>
+
+\* removal: what the file held, and what the writer still buffers for it, is gone with it
+ExtRemoveCur == /\ w.st = "act" /\ sws < MaxSw /\ ~needReopen /\ w.path \in DOMAIN dir /\ dir[w.path] = w.ino
+                /\ dir' = Unlink(dir, w.path)
+                /\ extgone' = extgone \cup Range(files[w.ino].ids) \cup Range(w.buf)
+                /\ sws' = sws + 1 /\ needReopen' = TRUE
+                /\ hist' = H([op |-> "ExtRemove", which |-> "cur"])
+                /\ UNCHANGED <<files, w, clk, cfg, logged, wt, runs, trigs, advs, gone, okgone, forced, exts, moved, olddirs>>
+
+\* state.rs:540 reopen_outputfile: open(create, append) at the stored path, replace the writer by the
+\* bare File (unbuffered from now on); the old writer is dropped => flushed into the old inode.
+\* Size and creation date of the roll state are NOT reset. Before the first write: no-op.
+Reopen == /\ w.st \in {"init", "act"} /\ (needReopen \/ sws < MaxSw)
+          /\ IF w.st = "init" THEN UNCHANGED <<dir, files, w>>
+             ELSE LET f1 == FlushInto(files, w)
+                      o  == Open(dir, f1, w.path, TRUE, clk)
+                  IN /\ dir' = o.d /\ files' = o.f
+                     /\ w' = [w EXCEPT !.ino = o.ino, !.buf = <<>>, !.buffered = FALSE]
+          /\ needReopen' = FALSE /\ sws' = IF needReopen THEN sws ELSE sws + 1
+          /\ hist' = H([op |-> "Reopen"])
+          /\ UNCHANGED <<clk, cfg, logged, wt, runs, trigs, advs, gone, okgone, forced, extgone, exts, moved, olddirs>>
+
+\* state_handle.rs:253 reset: the whole State is replaced (old writer dropped => flushed); the new one
+\* initialises lazily. The new family lives in another directory (`dir` starts empty).
+Reset(c2) == /\ w.st \in {"init", "act"} /\ sws < MaxSw /\ ~needReopen
+             /\ (c2.cap > 0) = (cfg.cap > 0)          \* the write mode cannot be changed by a reset
+             /\ files' = FlushInto(files, w)
+             /\ olddirs' = Append(olddirs, dir) /\ dir' = <<>>
+             /\ cfg' = [c2 EXCEPT !.cap = cfg.cap] /\ w' = [NoWriter EXCEPT !.st = "init"]
+             /\ sws' = sws + 1
+             /\ forced' = forced \cup {Len(logged)}
+             /\ hist' = H([op |-> "Reset", cfg |-> c2])
+             /\ UNCHANGED <<clk, logged, wt, runs, trigs, advs, gone, okgone, extgone, exts, moved, needReopen>>
 
 Next == \/ \E ap \in BOOLEAN : Start(ap)
         \/ \E len \in Lens : Write(len)
         \/ Trigger \/ TriggerNoop \/ Flush \/ Stop
         \/ \E dt \in Dts : Advance(dt)
         \/ \E n \in DOMAIN dir : ExtRemove(n)
+        \/ ExtRenameCur \/ ExtRemoveCur \/ Reopen \/ \E c2 \in ResetCfgs : Reset(c2)
 
 Spec == Init /\ [][Next]_vars
 
@@ -371,8 +421,10 @@ C07_Limits == (cfg.clean /\ w.st = "act") =>
                  /\ Cardinality(Rotated(cfg, dir)) <= KEff(cfg)
                  /\ Cardinality(Zipped(cfg, dir))  <= cfg.m
 C07_Tail   == (cfg.clean /\ w.st = "act") => IsSuffix(Stream(ObsFiles) \o BufRecs, AccEff)
-C07_CurrentSafe == (w.st = "act" /\ cfg.rot) =>
+C07_CurrentSafe == (w.st = "act" /\ cfg.rot /\ sws = 0) =>
                       /\ w.path \in DOMAIN dir /\ dir[w.path] = w.ino /\ ~w.path.z
+\* with switches: the writer holds the file at its path unless the environment just took it away
+C07_CurrentSafeSw == (w.st = "act" /\ ~needReopen) => (w.path \in DOMAIN dir /\ dir[w.path] = w.ino)
 
 \* C08 (size criterion, evaluated on synced states so that it is mode independent)
 C08_Partition == (cfg.rot /\ cfg.size >= 0 /\ cfg.age = "-" /\ ~cfg.clean /\ Synced /\ gone = {} /\ extgone = {})
@@ -382,4 +434,18 @@ C09_Domain == cfg.rot /\ cfg.age # "-" /\ ~cfg.clean /\ Synced /\ gone = {} /\ e
 C09_OnePeriodPerFile       == C09_Domain => OnePeriodPerFile(ObsFiles, cfg.age, wt)
 C09_NoRotationInsidePeriod == C09_Domain => NoRotationInsidePeriod(ObsFiles, cfg.age, cfg.size, forced)
 C09_TsNameIsStart          == (cfg.rot /\ ~cfg.clean) => TsNameIsStart(ObsFiles, cfg.gran)
+\* C18: reopen/reset switch files without losing, duplicating or reordering
+MovedRecs   == [j \in 1..Len(moved) |-> RecsOf(files[moved[j]].ids)]
+OldFamRecs  == [j \in 1..Len(olddirs) |->
+                  LET d == olddirs[j]
+                      names == SetToSeq(DOMAIN d)
+                  IN Stream([q \in 1..Len(names) |->
+                        [k |-> names[q].k, i |-> names[q].i, r |-> names[q].r, z |-> names[q].z,
+                         clean |-> TRUE, bt |-> 0, recs |-> RecsOf(files[d[names[q]]].ids)]])]
+\* the buffer counts only while the inode it will be flushed into is still reachable
+BufRecsSw   == IF w.st = "act" /\ (w.ino \in Range(dir) \/ w.ino \in Range(moved)) THEN RecsOf(w.buf) ELSE <<>>
+AllPlaces   == FlattenSeq(MovedRecs) \o FlattenSeq(OldFamRecs) \o Stream(ObsFiles) \o BufRecsSw
+C18_ExactlyOnce == (~cfg.clean) => SameElementsOnce(AllPlaces, NotGone)
+C18_OrderedParts == (~cfg.clean) => /\ Ascending(FlattenSeq(MovedRecs))
+                                     /\ Ascending(FlattenSeq(OldFamRecs) \o Stream(ObsFiles))
 =============================================================================
